@@ -35,7 +35,7 @@ ASSUMPTIONS = ['lemma blocks have the shape the slicer documents: `${ $d/$e ... 
 SEEDS = list(range(8))
 FLOORS = {'quick': {'databases': 300, 'databases_with_nested_blocks': 100, 'databases_with_dv': 100, 'databases_with_e': 100,
                     'roundtrips_checked': 2400, 'slices_verified': 1000, 'slices_with_hyps': 100, 'slices_with_dv': 30, 'slices_using_earlier_lemma': 60,
-                    'shipped_databases': 10, 'shipped_slices_verified': 500, 'databases_with:clash_token_is_variable': 20, 'databases_with:clash_token_is_constant': 20, **{f'seed_runs:{s}': 300 for s in SEEDS}}}
+                    'shipped_databases': 10, 'roundtrip_only_databases_checked': 300, 'shipped_slices_verified': 500, 'databases_with:clash_token_is_variable': 20, 'databases_with:clash_token_is_constant': 20, **{f'seed_runs:{s}': 300 for s in SEEDS}}}
 FLOORS['thorough'] = dict(FLOORS['quick'], databases=4000, slices_verified=12000, roundtrips_checked=32000)
 
 REPO = Path(os.environ.get('PI2_REPO', '/repo'))
@@ -278,6 +278,18 @@ def shard(ctx):
     for t in range(ctx.scale(64, 640)):
         g = mmdb.late_dv_case(rng)
         cases.append({'text': g['text'], 'features': g['features'], 'kind': 'generated', 'name': f't{ctx.shard}.{t}'})
+    # parseable but unusual texts (print / re-parse only; nothing here is a valid proof, so nothing is sliced or verified)
+    for t in range(ctx.scale(96, 960)):
+        nm = rng.sample(['ph0', 'ph1', 'x', 'th', 'A'], 3)
+        proof = rng.choice(['', '', '?', 'ax-a', '( ax-a ) A', '( ) A', 'ax-a ax-a', '( ax-a ax-b ) ABZA'])
+        dv = rng.choice(['', f'$d {nm[0]} {nm[1]} $.', f'$d {nm[0]} {nm[1]} {nm[2]} $.'])
+        hyp = rng.choice(['', f'lem.1 $e |- ( \\imp {nm[0]} {nm[1]} ) $.'])
+        body = f'lem $p |- ( \\imp {nm[0]} {nm[0]} ) $= {proof} $.'
+        wrapped = ('${ ' + dv + ' ' + hyp + ' ' + body + ' $}') if (dv or hyp or rng.random() < 0.3) else body
+        text = ('$c #Pattern |- ( ) \\imp $.\n$v ' + ' '.join(nm) + ' $.\n' + ''.join(f'{v}-is-pattern $f #Pattern {v} $.\n' for v in nm) +
+                f'imp-is-pattern $a #Pattern ( \\imp {nm[0]} {nm[1]} ) $.\nax-a $a |- ( \\imp {nm[0]} {nm[0]} ) $.\nax-b $a |- ( \\imp {nm[1]} ( \\imp {nm[0]} {nm[1]} ) ) $.\n' +
+                wrapped + '\n' + rng.choice(['', 'stub $p |- ( \\imp ' + nm[2] + ' ' + nm[2] + ' ) $= $.\n', 'open $p |- ' + nm[1] + ' $= ? $.\n']))
+        cases.append({'text': text, 'features': ['unusual_but_parseable', 'empty_proof' if ('$= $.' in text or '$=  $.' in text) else 'other'], 'kind': 'roundtrip_only', 'name': f'u{ctx.shard}.{t}'})
     # shipped databases: spread over the shards
     bench = [f for f in sorted((REPO / 'generation' / 'mm-benchmarks').glob('*.mm')) if f.read_text().strip()]
     for i, f in enumerate(bench):
@@ -355,6 +367,9 @@ def shard(ctx):
                                 ctx.count('printed_token_identical')
                         except mm.MMError:
                             pass
+                if c['kind'] == 'roundtrip_only':
+                    ctx.count('roundtrip_only_databases_checked')
+                    continue
                 # slices
                 if 'slicer_error' in r:
                     e = r['slicer_error']
